@@ -376,7 +376,14 @@ impl<'a> ExprGen<'a> {
             4 => GE::Index(Box::new(self.gen(depth - 1)), Box::new(self.gen(depth - 1))),
             5 => {
                 let n = self.rng.below(3);
-                let f = self.gen(depth - 1);
+                let mut f = self.gen(depth - 1);
+                // a callee is invoked as a plain function: `x.valueOf()` / `x.hasOwnProperty()` then run the built-in without
+                // a receiver and throw by JavaScript's own rules, which says nothing about the compiler
+                if let GE::Member(o, name) = &f {
+                    if name == "valueOf" || name == "hasOwnProperty" {
+                        f = GE::Member(o.clone(), "a".into());
+                    }
+                }
                 GE::Call(Box::new(f), (0..n).map(|_| self.gen(depth - 1)).collect())
             }
             6 | 7 => {
